@@ -17,6 +17,12 @@ open CrCube
     ((Except.error e : R α) >>= f) = Except.error e := rfl
 @[simp] theorem R_pure {α : Type} (a : α) : (pure a : R α) = Except.ok a := rfl
 
+theorem bind_eq_ok {α β : Type} {x : R α} {f : α → R β} {b : β} (h : (x >>= f) = .ok b) :
+    ∃ a, x = .ok a ∧ f a = .ok b := by
+  cases x with
+  | error e => simp at h
+  | ok a => exact ⟨a, rfl, by simpa using h⟩
+
 theorem mapR_ok {α β : Type} {f : α → R β} {g : α → β} {l : List α} (h : ∀ x ∈ l, f x = .ok (g x)) :
     mapR f l = .ok (l.map g) := by
   induction l with
